@@ -9,13 +9,14 @@
    Definitions only.
 
    Conventions.  Addresses, public keys, relay addresses and account patterns are numbers
-   (a 20/48-byte value read big-endian; relay address strings and regular expressions are
-   numbered by the harness, a pattern and its anchored form "^...$" having the same number).
-   Whether an account pattern matches a validator is an input ([v_accts]): regular-expression
-   matching is Go's.  Durations are nanoseconds, minimum values are decimals [m * 10^e] in wei.
+   (byte strings and relay address strings are numbered by the harness per case: the model only
+   compares them for equality and against zero; account patterns are numbered by what they match
+   among a set of probe names that includes the case's validators, so a pattern and the anchored
+   text the implementation stores or marshals for it have the same number exactly when they
+   behave alike).  Whether an account pattern matches a validator is an input ([v_accts]):
+   regular-expression matching is Go's, on the documented meaning of the pattern.  Durations are nanoseconds, minimum values are decimals [m * 10^e] in wei.
    Go maps are key-unique association lists; the model iterates them in list order (the proofs
-   show that the order only permutes the resulting relay list).  int64 overflow of
-   "grace milliseconds * 10^6" is outside the model (bound stated in props/C10.json). *)
+   show that the order only permutes the resulting relay list). *)
 From Verif Require Import Lib.Base.
 
 (* ------------------------------------------------------------------------------------------ *)
@@ -257,48 +258,39 @@ Record config1 := { c1_props : list (N * option proposer1); c1_default : option 
 
 Definition empty_builder : builder1 := {| b_enabled := false; b_grace := 0; b_relays := [] |}.
 
-(* "fill in" step of v1 ProposerConfig: it MUTATES the stored entry *)
-Definition fill1 (q : proposer1) (fbgas : N) : proposer1 :=
-  {| q_fee := q_fee q;
-     q_gas := if q_gas q =? 0 then fbgas else q_gas q;
-     q_builder := Some (or_else (q_builder q) empty_builder) |}.
-
+(* the fallback entry built when neither a proposer entry nor a default is available *)
 Definition fallback1 (fbfee fbgas : N) : proposer1 :=
   {| q_fee := fbfee; q_gas := fbgas; q_builder := Some empty_builder |}.
 
-Definition relay1 (q : proposer1) (b : builder1) (a : N) : relay_cfg :=
-  {| rc_addr := a; rc_pk := None; rc_fee := q_fee q; rc_gas := q_gas q;
-     rc_grace := b_grace b; rc_min := dec_zero |}.
-
-(* output built from a filled-in entry *)
-Definition out1 (q : proposer1) : prop_cfg :=
-  let b := or_else (q_builder q) empty_builder in
+(* ExecutionConfig.ProposerConfig (v1).  The "fill in" step works on local copies: the shared
+   configuration is not altered (repo commit "do not mutate the shared v1 execution
+   configuration when resolving a proposer"). *)
+Definition proposer_config_v1 (c : config1) (key fbfee fbgas : N) : prop_cfg :=
+  let entry := match aget (c1_props c) key with          (* proposerConfig, exists := map[pubkey] *)
+               | Some (Some q) => Some q
+               | Some None                                (* exists but is a nil pointer (JSON null) *)
+               | None => c1_default c                     (* try the default config (fix: a null
+                                                             entry used to skip it) *)
+               end in
+  let q := match entry with
+           | Some q => q
+           | None => fallback1 fbfee fbgas                (* nil: the fallback config *)
+           end in
+  let gas := if q_gas q =? 0 then fbgas else q_gas q in
+  let b := match q_builder q with Some b => b | None => empty_builder end in
   {| pc_fee := q_fee q;
-     pc_relays := if b_enabled b then map (relay1 q b) (b_relays b) else [] |}.
-
-(* ExecutionConfig.ProposerConfig (v1): output and the configuration afterwards *)
-Definition proposer_config_v1 (c : config1) (key fbfee fbgas : N) : prop_cfg * config1 :=
-  match aget (c1_props c) key with
-  | Some (Some q) =>
-      let q' := fill1 q fbgas in
-      (out1 q', {| c1_props := aset (c1_props c) key (Some q'); c1_default := c1_default c |})
-  | Some None =>                                   (* exists but nil: straight to the fallback *)
-      (out1 (fill1 (fallback1 fbfee fbgas) fbgas), c)
-  | None =>
-      match c1_default c with
-      | Some q =>
-          let q' := fill1 q fbgas in
-          (out1 q', {| c1_props := c1_props c; c1_default := Some q' |})
-      | None => (out1 (fill1 (fallback1 fbfee fbgas) fbgas), c)
-      end
-  end.
+     pc_relays :=
+       if b_enabled b
+       then map (fun a => {| rc_addr := a; rc_pk := None; rc_fee := q_fee q; rc_gas := gas;
+                             rc_grace := b_grace b; rc_min := dec_zero |}) (b_relays b)
+       else [] |}.
 
 (* the documented legacy lookup: proposer entry, else default, else fallback; the gas limit alone
    falls back field-wise; relays only when the builder is enabled *)
 Definition select1 (c : config1) (key fbfee fbgas : N) : proposer1 :=
   match aget (c1_props c) key with
   | Some (Some q) => q
-  | Some None => fallback1 fbfee fbgas
+  | Some None                                  (* a null entry is no entry *)
   | None => or_else (c1_default c) (fallback1 fbfee fbgas)
   end.
 
@@ -316,6 +308,38 @@ Definition resolve_v1 (c : config1) (key fbfee fbgas : N) : prop_cfg :=
        | None => []
        end |}.
 
+(* docs/execlayer.md, "Precedence of configuration values", reads differently: PER VALUE, "if a
+   value is found in the validator-specific proposer_config section it is used; if not, and a
+   value is found in the default_config section it is used; otherwise, the fallback value is
+   used" (its example: an entry with only a fee recipient takes the builder of the default
+   configuration).  The code selects one whole entry instead ([resolve_v1]); the two differ when
+   the validator's entry lacks a gas limit the default has, or lacks a builder the default has (known finding C10-v1-entry-not-fieldwise; Proofs/C10.v proves both directions). *)
+Definition gas_of1 (q : proposer1) : option N := if q_gas q =? 0 then None else Some (q_gas q).
+
+Definition resolve_v1_doc (c : config1) (key fbfee fbgas : N) : prop_cfg :=
+  let entry := match aget (c1_props c) key with Some (Some q) => Some q | _ => None end in
+  let def := c1_default c in
+  let fee := first_some [option_map q_fee entry; option_map q_fee def] fbfee in
+  let gas := first_some [obind entry gas_of1; obind def gas_of1] fbgas in
+  let builder := or_opt (obind entry q_builder) (obind def q_builder) in
+  {| pc_fee := fee;
+     pc_relays :=
+       match builder with
+       | Some b =>
+           if b_enabled b
+           then map (fun a => {| rc_addr := a; rc_pk := None; rc_fee := fee; rc_gas := gas;
+                                 rc_grace := b_grace b; rc_min := dec_zero |}) (b_relays b)
+           else []
+       | None => []
+       end |}.
+
+(* the lookups on which the two readings coincide: no entry for the key, or a complete one *)
+Definition v1_entry_complete (c : config1) (key : N) : bool :=
+  match aget (c1_props c) key with
+  | None | Some None => true
+  | Some (Some q) => negb (q_gas q =? 0) && match q_builder q with Some _ => true | None => false end
+  end.
+
 (* ------------------------------------------------------------------------------------------ *)
 (* Both versions behind the ExecutionConfigurator interface *)
 
@@ -323,26 +347,28 @@ Inductive config := CV1 (c : config1) | CV2 (c : config2).
 
 Inductive outcome := OOk (p : prop_cfg) | OErr | OPanic.
 
-Definition lookup (c : config) (v : validator) (fbfee fbgas : N) : outcome * config :=
+(* a lookup does not alter the configuration (v2 never did; v1 since the fix above) *)
+Definition lookup (c : config) (v : validator) (fbfee fbgas : N) : outcome :=
   match c with
-  | CV1 c1 => let r := proposer_config_v1 c1 (v_key v) fbfee fbgas in (OOk (fst r), CV1 (snd r))
-  | CV2 c2 => (match proposer_config_v2 c2 v fbfee fbgas with Some p => OOk p | None => OErr end, c)
+  | CV1 c1 => OOk (proposer_config_v1 c1 (v_key v) fbfee fbgas)
+  | CV2 c2 => match proposer_config_v2 c2 v fbfee fbgas with Some p => OOk p | None => OErr end
   end.
 
-Fixpoint lookups (c : config) (vs : list validator) (fbfee fbgas : N) : list outcome * config :=
-  match vs with
-  | [] => ([], c)
-  | v :: vs' =>
-      let r := lookup c v fbfee fbgas in
-      let rs := lookups (snd r) vs' fbfee fbgas in
-      (fst r :: fst rs, snd rs)
-  end.
+Definition lookups (c : config) (vs : list validator) (fbfee fbgas : N) : list outcome :=
+  map (fun v => lookup c v fbfee fbgas) vs.
 
 (* the specification of a lookup (no state) *)
 Definition resolve (c : config) (v : validator) (fbfee fbgas : N) : outcome :=
   match c with
   | CV1 c1 => OOk (resolve_v1 c1 (v_key v) fbfee fbgas)
   | CV2 c2 => match resolve_v2 c2 v fbfee fbgas with Some p => OOk p | None => OErr end
+  end.
+
+(* the same with the per-value reading of docs/execlayer.md for the legacy format *)
+Definition resolve_doc (c : config) (v : validator) (fbfee fbgas : N) : outcome :=
+  match c with
+  | CV1 c1 => OOk (resolve_v1_doc c1 (v_key v) fbfee fbgas)
+  | CV2 _ => resolve c v fbfee fbgas
   end.
 
 (* ------------------------------------------------------------------------------------------ *)
@@ -406,10 +432,13 @@ Definition d_num (j : json) : option (option N) :=
   | JStr (LNum n) => Some (Some n)
   | _ => None
   end.
+(* time.Duration(ms) * time.Millisecond must fit int64: larger values are refused
+   (fix: they used to wrap around into an arbitrary, possibly negative, grace) *)
+Definition max_grace_ms : N := 9223372036854.          (* MaxInt64 / 10^6 *)
 Definition d_grace (j : json) : option (option N) :=
   match j with
   | JNull | JStr LEmpty => Some None
-  | JStr (LNum ms) => Some (Some (ms * ns_per_ms))
+  | JStr (LNum ms) => if ms <=? max_grace_ms then Some (Some (ms * ns_per_ms)) else None
   | _ => None
   end.
 Definition d_min (j : json) : option (option dec) :=
@@ -556,11 +585,21 @@ Definition d_nullable {A} (dec_entry : json -> option A) (j : json) : option (op
   | _ => option_map Some (dec_entry j)
   end.
 
+(* no key occurs twice *)
+Fixpoint nodupb (l : list N) : bool :=
+  match l with
+  | [] => true
+  | x :: l' => negb (memb N.eqb x l') && nodupb l'
+  end.
+
+(* the keys of "proposer_config" are hex strings: two spellings of one public key ("0xAB..",
+   "0xab..", "ab..") are refused (fix: the entry that won used to depend on Go's map order) *)
 Definition config1_of_json (j : json) : option config1 :=
   match j with
   | JObj o =>
       match d_map (d_nullable proposer1_of_json) (field FPropCfg o) with
       | Some ps =>
+          if negb (nodupb (map fst ps)) then None else
           match field FDefault o with
           | JNull => None                                          (* "default config missing" *)
           | jd => option_map (fun d => {| c1_props := ps; c1_default := Some d |}) (proposer1_of_json jd)
